@@ -139,20 +139,30 @@ class FutureResult(object):
         self._done_event = EventData()
         self.__callback = None
         self.__extra = None
+        self.__lock = threading.Lock()
+
+    def __call_back(self, callback, extra):
+        """
+        Calls the given callback with the result of the execution
+        """
+        try:
+            callback(self._done_event.data, self._done_event.exception, extra)
+        except Exception as ex:
+            self._logger.exception("Error calling back method: %s", ex)
 
     def __notify(self):
         """
-        Notify the given callback about the result of the execution
+        Notify the registered callback about the result of the execution.
+        The callback is removed, in order to be notified only once even if
+        the execution ends while a callback is being registered
         """
-        if self.__callback is not None:
-            try:
-                self.__callback(
-                    self._done_event.data,
-                    self._done_event.exception,
-                    self.__extra,
-                )
-            except Exception as ex:
-                self._logger.exception("Error calling back method: %s", ex)
+        with self.__lock:
+            callback, extra = self.__callback, self.__extra
+            self.__callback = None
+            self.__extra = None
+
+        if callback is not None:
+            self.__call_back(callback, extra)
 
     def set_callback(self, method, extra=None):
         """
@@ -165,11 +175,16 @@ class FutureResult(object):
         :param method: The method to call back in the end of the execution
         :param extra: Extra parameter to be given to the callback method
         """
-        self.__callback = method
-        self.__extra = extra
-        if self._done_event.is_set():
+        with self.__lock:
+            done = self._done_event.is_set()
+            if not done:
+                # Will be called at the end of the execution
+                self.__callback = method
+                self.__extra = extra
+
+        if done and method is not None:
             # The execution has already finished
-            self.__notify()
+            self.__call_back(method, extra)
 
     def execute(self, method, args, kwargs):
         """
